@@ -70,6 +70,7 @@ class RuleResult:
         self.clause = clause  # e.g. "C06.1"
         self.description = description
         self.floor = floor
+        self.floor_nontrivial = 0  # optional second floor on the number of distinct non-trivial instances
         self.instances = 0  # rule instances evaluated
         self.nontrivial: set = set()  # distinct instances carrying a non-trivial obligation
         self.findings: list[Finding] = []
@@ -95,6 +96,12 @@ class RuleResult:
             raise AnalysisError(
                 f"{self.clause} [{self.rule}] matched {self.instances} instance(s), fewer than the floor {self.floor} "
                 f"confirmed by hand: an anchor vanished or the rule no longer sees the code ({self.description})"
+            )
+
+        if len(self.nontrivial) < self.floor_nontrivial and not [f for f in self.findings if not f.informational]:
+            raise AnalysisError(
+                f"{self.clause} [{self.rule}] has {len(self.nontrivial)} comparable instance(s), fewer than the {self.floor_nontrivial} "
+                f"confirmed by hand: the rule no longer sees the constructs it decides ({self.description})"
             )
 
     def to_json(self):
